@@ -1,4 +1,7 @@
 import Pyrealb.Lemmas.NumberFacts
+import Pyrealb.Lemmas.NumberRoman
+import Pyrealb.Lemmas.NumberFormat
+import Pyrealb.Lemmas.NumberOrdinal
 /-! # C16 — numbers: words, ordinals, Roman numerals, digit formatting, number agreement
 
 Property theorems only.  `Model/Number*.lean` mirrors `Number.py` and the `NO` part of `Terminal*.py` with every
@@ -7,7 +10,7 @@ numeral systems, the ordinal forms, canonical Roman numerals, reading of digit s
 repository.  Finite facts are `decide +kernel` over the generated tables (`…_tbl`), the unbounded statements are
 by induction over the list of digit triplets. -/
 namespace Pyrealb.C16
-open Pyrealb Pyrealb.Number Pyrealb.NumberSpec
+open Pyrealb Pyrealb.Number Pyrealb.NumberSpec Pyrealb.Gen.NumberWords
 
 /-- the domain of the property: `|n| < 10^21` -/
 def InDomain (n : Int) : Prop := n.natAbs < 10 ^ 21
@@ -27,34 +30,11 @@ theorem spell_eval_fr_holds : spell_eval_fr := by
   intro k hk
   exact scale_tbl_fr ⟨k, scalesNeeded_lt_six _ hn k hk⟩
 
-/-- English: 10^15 is spelled `one quatrillion`, which is not an English number word (`quadrillion`) -/
-theorem spell_eval_en_refuted : ¬ spell_eval_en := by
-  intro h
-  obtain ⟨w, hw, he⟩ := h (10 ^ 15) (by decide)
-  have : enToutesLettres .en (10 ^ 15) = .ok (s "one quatrillion") := by decide +kernel
-  rw [this] at hw
-  cases hw
-  revert he
-  decide +kernel
-
-/-- the spelling of `n` uses the scale word of 10^15 (its triplet of 10^15 is not 000) -/
-def UsesQuadrillion (n : Int) : Prop := 4 ∈ scalesNeeded (splitS n.natAbs)
-instance (n : Int) : Decidable (UsesQuadrillion n) := inferInstanceAs (Decidable (4 ∈ scalesNeeded (splitS n.natAbs)))
-
-theorem spell_eval_en_partial : ∀ n : Int, InDomain n → ¬ UsesQuadrillion n → Denotes .en n := by
-  intro n hn hq
+theorem spell_eval_en_holds : spell_eval_en := by
+  intro n hn
   apply spell_eval_core factsEn
   intro k hk
-  have hk6 := scalesNeeded_lt_six _ hn k hk
-  exact scale_tbl_en ⟨k, hk6⟩ (by intro h4; simp only at h4; subst h4; exact hq hk)
-
-/-- in particular every `|n| < 10^15` -/
-theorem spell_eval_en_partial_below : ∀ n : Int, n.natAbs < 10 ^ 15 → Denotes .en n := by
-  intro n hn
-  apply spell_eval_en_partial n (by unfold InDomain; omega)
-  intro hq
-  have := scalesNeeded_lt_four _ hn 4 hq
-  omega
+  exact scale_tbl_en ⟨k, scalesNeeded_lt_six _ hn k hk⟩
 
 /-- the spelling never raises inside the domain -/
 def spell_total : Prop := ∀ (ℓ : Lang) (n : Int), InDomain n → ∃ w, enToutesLettres ℓ n = .ok w
@@ -62,8 +42,7 @@ def spell_total : Prop := ∀ (ℓ : Lang) (n : Int), InDomain n → ∃ w, enTo
 theorem spell_total_holds : spell_total := by
   intro ℓ n hn
   cases ℓ
-  · obtain ⟨w, hw, _⟩ := spell_eval_core factsEnRepo n
-      (fun k hk => scale_tbl_enRepo ⟨k, scalesNeeded_lt_six _ hn k hk⟩)
+  · obtain ⟨w, hw, _⟩ := spell_eval_en_holds n hn
     exact ⟨w, hw⟩
   · obtain ⟨w, hw, _⟩ := spell_eval_fr_holds n hn
     exact ⟨w, hw⟩
@@ -75,49 +54,214 @@ def spell_injective : Prop := ∀ (ℓ : Lang) (a b : Int), InDomain a → InDom
 
 theorem spell_injective_holds : spell_injective := by
   intro ℓ a b ha hb hab
-  cases ℓ
-  · -- English: read with the English numeral system extended by the repository's `quatrillion`
-    obtain ⟨wa, hwa, hea⟩ := spell_eval_core factsEnRepo a
-      (fun k hk => scale_tbl_enRepo ⟨k, scalesNeeded_lt_six _ ha k hk⟩)
-    obtain ⟨wb, hwb, heb⟩ := spell_eval_core factsEnRepo b
-      (fun k hk => scale_tbl_enRepo ⟨k, scalesNeeded_lt_six _ hb k hk⟩)
-    rw [hwa, hwb] at hab
-    cases hab
-    rw [hea] at heb
-    exact Option.some.inj heb
-  · obtain ⟨wa, hwa, hea⟩ := spell_eval_fr_holds a ha
-    obtain ⟨wb, hwb, heb⟩ := spell_eval_fr_holds b hb
-    rw [hwa, hwb] at hab
-    cases hab
-    rw [hea] at heb
-    exact Option.some.inj heb
+  have key : Denotes ℓ a ∧ Denotes ℓ b := by
+    cases ℓ
+    · exact ⟨spell_eval_en_holds a ha, spell_eval_en_holds b hb⟩
+    · exact ⟨spell_eval_fr_holds a ha, spell_eval_fr_holds b hb⟩
+  obtain ⟨⟨wa, hwa, hea⟩, ⟨wb, hwb, heb⟩⟩ := key
+  rw [hwa, hwb] at hab
+  cases hab
+  rw [hea] at heb
+  exact Option.some.inj heb
 
 /-! non-vacuity: concrete instances (tests, by kernel evaluation) -/
 example : enToutesLettres .fr (-1000071) = .ok (s "moins un million soixante et onze") := by decide +kernel
 example : eval .fr (s "moins un million soixante et onze") = some (-1000071) := by decide +kernel
-example : enToutesLettres .en 999999999999999999999 = .ok (s ("nine hundred and ninety-nine quintillion nine hundred and ninety-nine quatrillion nine hundred and ninety-nine trillion nine hundred and ninety-nine billion nine hundred and ninety-nine million nine hundred and ninety-nine thousand nine hundred and ninety-nine")) := by decide +kernel
+example : enToutesLettres .en 999999999999999999999 = .ok (s ("nine hundred and ninety-nine quintillion nine hundred and ninety-nine quadrillion nine hundred and ninety-nine trillion nine hundred and ninety-nine billion nine hundred and ninety-nine million nine hundred and ninety-nine thousand nine hundred and ninety-nine")) := by decide +kernel
 example : InDomain 999999999999999999999 := by decide +kernel
-example : UsesQuadrillion 2000000000000021 := by decide +kernel
-example : ¬ UsesQuadrillion 7000000000000 := by decide +kernel
+example : eval .en (s "one quadrillion") = some (10 ^ 15) := by decide +kernel
 /-- outside the domain the code raises (`uM[l-2]`, IndexError) -/
 example : enToutesLettres .en (10 ^ 21) = .error .indexError := by decide +kernel
 
+/-! ## C16.c  ordinals are the spelling with the language's ordinal ending rule -/
+
+/-- the ordinal of `n` is what the ordinal ending rule (`ordRule`, a table of the ordinal form of every number
+    word) makes of the cardinal -/
+def OrdinalFollowsRule (ℓ : Lang) (n : Int) (g : Gender) : Prop :=
+  ∃ w o, enToutesLettres ℓ n = .ok w ∧ ordinal ℓ n g = .ok o ∧ ordRule ℓ g w = some o
+
+def ordinal_rule_en : Prop := ∀ (n : Int) (g : Gender), 1 ≤ n → InDomain n → OrdinalFollowsRule .en n g
+def ordinal_rule_fr : Prop := ∀ (n : Int) (g : Gender), 1 ≤ n → InDomain n → OrdinalFollowsRule .fr n g
+
+theorem ordinal_rule_en_holds : ordinal_rule_en := by
+  intro n g hn hd
+  obtain ⟨w, hw⟩ := spell_total_holds .en n hd
+  obtain ⟨o, h1, h2⟩ := ordinal_follows .en n g hn hd w hw
+  exact ⟨w, o, hw, h1, h2⟩
+
+theorem ordinal_rule_fr_holds : ordinal_rule_fr := by
+  intro n g hn hd
+  obtain ⟨w, hw⟩ := spell_total_holds .fr n hd
+  obtain ⟨o, h1, h2⟩ := ordinal_follows .fr n g hn hd w hw
+  exact ⟨w, o, hw, h1, h2⟩
+
+/-! concrete instances (tests, by kernel evaluation) -/
+example : ordinal .fr 81 .m = .ok (s "quatre-vingt-unième") ∧ ordinal .fr 200 .m = .ok (s "deux centième")
+    ∧ ordinal .fr 2000000 .m = .ok (s "deux millionième") ∧ ordinal .fr 1001 .f = .ok (s "mille unième") := by decide +kernel
+example : ordRule .fr .m (s "deux cents") = some (s "deux centième") := by decide +kernel
+example : ordinal .en 1000000000000000021 .m = .ok (s "one quintillion twenty-first") := by decide +kernel
+example : ordinal .fr 1 .f = .ok (s "première") ∧ ordinal .fr 61 .f = .ok (s "soixante et unième") := by decide +kernel
+
 /-! ## C16.d  Roman numerals -/
 
-/-- `roman n` is the canonical numeral of `n` (greedy subtraction) and its value is `n` -/
+/-- `roman n` is the canonical numeral of `n` and the value of that numeral is `n`
+    (finite fact `roman_canon_tbl`: `decide +kernel` over all `n < 4000` on the generated symbol tables) -/
 def roman_canon : Prop := ∀ n : Nat, 1 ≤ n → n ≤ 3999 →
   roman n = .ok (romanCanon n) ∧ romanValue (romanCanon n) = some n
 
-set_option maxRecDepth 100000 in
-theorem roman_canon_tbl : ∀ n : Fin 4000, 1 ≤ n.val →
-    (roman n.val == .ok (romanCanon n.val) && romanValue (romanCanon n.val) == some n.val) = true := by
-  decide +kernel
-
-theorem roman_canon_holds : roman_canon := by
-  intro n h1 h2
-  have := roman_canon_tbl ⟨n, by omega⟩ h1
-  simpa using this
+theorem roman_canon_holds : roman_canon := fun n h1 h2 => roman_canon_lt n h1 (by omega)
 
 example : roman 1994 = .ok (s "MCMXCIV") := by decide +kernel
+
+/-! ## C16.e  the formatted digit form parses back to the value rounded to the requested precision -/
+
+/-- a float (exactly `± m / 10^k`) printed with `p` decimals is read back, with the language's grouping and
+    decimal signs, as `± q / 10^p` where `q` is `m / 10^k` rounded to `p` decimals to nearest, ties to even -/
+def format_dec_parse : Prop := ∀ (ℓ : Lang) (neg : Bool) (m k : Nat) (r : Str) (p : Nat),
+  ∃ txt q, numberFormatter ℓ (.flt neg m k r) (some (p : Int)) = .ok txt ∧
+    parseNumber (groupSign ℓ) (decimalSign ℓ) txt = some ⟨neg, q, p⟩ ∧ IsRounded m k p q
+
+theorem format_dec_parse_holds : format_dec_parse := by
+  intro ℓ neg m k r p
+  exact ⟨_, roundHE m k p, numberFormatter_flt ℓ neg m k r p, parse_formatFixed_lang ℓ neg _ p, roundHE_isRounded m k p⟩
+
+/-- an integer is printed with all its digits -/
+def format_int_parse : Prop := ∀ (ℓ : Lang) (n : Int) (mp : Option Int),
+  ∃ txt, numberFormatter ℓ (.int n) mp = .ok txt ∧
+    parseNumber (groupSign ℓ) (decimalSign ℓ) txt = some ⟨decide (n < 0), n.natAbs, 0⟩
+
+theorem format_int_parse_holds : format_int_parse := by
+  intro ℓ n mp
+  exact ⟨_, numberFormatter_int ℓ n mp, parse_formatFixed_lang ℓ _ _ 0⟩
+
+example : numberFormatter .fr (.flt true 1234567891 3 (s "-1234567.891")) (some 2) = .ok (s "-1\u00a0234\u00a0567,89") := by
+  decide +kernel
+example : numberFormatter .en (.flt false 25 1 (s "2.5")) (some 0) = .ok (s "2") := by decide +kernel     -- tie to even
+example : numberFormatter .en (.flt false 35 1 (s "3.5")) (some 0) = .ok (s "4") := by decide +kernel
+example : numberFormatter .en (.int (10 ^ 17 + 1)) none = .ok (s "100,000,000,000,000,001") := by decide +kernel
+
+/-! ## C16.f  grammatical number -/
+
+/-- the value is 1 or -1 -/
+def IsUnit : Val → Prop
+  | .int x => x = 1 ∨ x = -1
+  | .flt _ m k _ => m = 10 ^ k
+  | .special _ => False
+
+/-- the absolute value is below 2 -/
+def AbsBelowTwo : Val → Prop
+  | .int x => x.natAbs < 2
+  | .flt _ m k _ => m < 2 * 10 ^ k
+  | .special _ => False
+
+instance : ∀ v, Decidable (IsUnit v)
+  | .int _ => inferInstanceAs (Decidable (_ ∨ _))
+  | .flt _ _ _ _ => inferInstanceAs (Decidable (_ = _))
+  | .special _ => inferInstanceAs (Decidable False)
+
+instance : ∀ v, Decidable (AbsBelowTwo v)
+  | .int _ => inferInstanceAs (Decidable (_ < _))
+  | .flt _ _ _ _ => inferInstanceAs (Decidable (_ < _))
+  | .special _ => inferInstanceAs (Decidable False)
+
+/-- English: singular exactly for the value 1 or -1 written without decimals (DESIGN §6: `1.0` is plural by the
+    library's design), plural for everything else -/
+def gram_number_en : Prop := ∀ (no : NO) (v : Val), no.lang = .en → no.dOpt.ord ≠ some true → no.value = some v →
+  gramNumber no = .ok (if IsUnit v ∧ no.nbDecimals = 0 then .s else .p)
+
+/-- French: plural exactly when the absolute value is 2 or more -/
+def gram_number_fr : Prop := ∀ (no : NO) (v : Val), no.lang = .fr → no.dOpt.ord ≠ some true → no.value = some v →
+  gramNumber no = .ok (if AbsBelowTwo v then .s else .p)
+
+/-- ordinals are singular: what `grammaticalNumber()` answers and what realization sets -/
+def ordinal_singular : Prop := ∀ (no : NO), no.dOpt.ord = some true →
+  gramNumber no = .ok .s ∧ ∀ r w n, realNO no = .ok (r, w, n) → n = .s
+
+theorem gram_number_en_holds : gram_number_en := by
+  intro no v hl ho hv
+  have e1 : enSingAbs = 1 := rfl
+  have e2 : enSingDecimals = 0 := rfl
+  simp only [gramNumber, ho, if_false, hv, hl, e1, e2]
+  congr 1
+  cases v with
+  | int x =>
+    simp only [Val.absEq, IsUnit]
+    by_cases h : (x = 1 ∨ x = -1)
+    · have : ((x.natAbs : Int) == 1) = true := by simp; omega
+      by_cases hd : no.nbDecimals = 0 <;> simp [h, this, hd]
+    · have : ((x.natAbs : Int) == 1) = false := by simp; omega
+      simp [h, this]
+  | flt neg m k r =>
+    simp only [Val.absEq, IsUnit]
+    by_cases h : m = 10 ^ k <;> by_cases hd : no.nbDecimals = 0 <;> simp [h, hd]
+  | special r => simp [Val.absEq, IsUnit]
+
+theorem gram_number_fr_holds : gram_number_fr := by
+  intro no v hl ho hv
+  have e1 : frSingLow = -2 := rfl
+  have e2 : frSingHigh = 2 := rfl
+  simp only [gramNumber, ho, if_false, hv, hl, e1, e2]
+  congr 1
+  cases v with
+  | int x =>
+    simp only [Val.between, AbsBelowTwo]
+    by_cases h : x.natAbs < 2
+    · have : (decide (-2 < x) && decide (x < 2)) = true := by simp; omega
+      simp [h, this]
+    · have : (decide (-2 < x) && decide (x < 2)) = false := by
+        cases h1 : decide (-2 < x) <;> cases h2 : decide (x < 2) <;> simp at h1 h2 ⊢ <;> omega
+      simp [h, this]
+  | flt neg m k r =>
+    rw [between_flt]
+    simp only [AbsBelowTwo]
+    by_cases h : m < 2 * 10 ^ k <;> simp [h]
+  | special r => simp [Val.between, AbsBelowTwo]
+
+theorem ordinal_singular_holds : ordinal_singular := by
+  intro no ho
+  have hg : gramNumber no = .ok .s := by simp [gramNumber, ho, pure, Except.pure]
+  refine ⟨hg, ?_⟩
+  intro r w n hr
+  unfold realNO at hr
+  rw [hg] at hr
+  simp only at hr
+  cases hv : no.value with
+  | none => simp [hv] at hr
+  | some v =>
+    simp only [hv] at hr
+    by_cases hnat : no.dOpt.nat = some true
+    · simp only [hnat, if_true] at hr
+      cases v with
+      | int x =>
+        simp only at hr
+        split at hr
+        · simp [pure, Except.pure] at hr; exact hr.2.2.symm
+        cases h1 : numberOne no x with
+        | some one => simp [h1, pure, Except.pure] at hr; exact hr.2.2.symm
+        | none =>
+          simp only [h1] at hr
+          cases h2 : enToutesLettres no.lang x with
+          | error e => simp [h2, Except.map] at hr
+          | ok w' => simp [h2, Except.map] at hr; exact hr.2.2.symm
+      | flt _ _ _ _ => simp [pure, Except.pure] at hr; exact hr.2.2.symm
+      | special _ => simp [pure, Except.pure] at hr; exact hr.2.2.symm
+    · simp only [hnat, if_false, ho, if_true] at hr
+      cases v with
+      | int x =>
+        simp only at hr
+        by_cases hx : x < 0 ∨ tooLong ordLimit x.natAbs = true
+        · simp [hx, pure, Except.pure] at hr; exact hr.2.2.symm
+        · simp only [hx, if_false] at hr
+          cases h2 : ordinal no.lang x no.g with
+          | error e => simp [h2, Except.map] at hr
+          | ok w' => simp [h2, Except.map] at hr; exact hr.2.2.symm
+      | flt _ _ _ _ => simp [pure, Except.pure] at hr; exact hr.2.2.symm
+      | special _ => simp [pure, Except.pure] at hr; exact hr.2.2.symm
+
+/-! non-vacuity: what `NO(1)`, `NO(1.0)`, `NO(-1.5)`, `NO(2)` give (tests) -/
+example : gramNumber { lang := .en, value := some (.int (-1)), nbDecimals := 0, dOpt := defaultDOpt } = .ok .s := by decide +kernel
+example : gramNumber { lang := .en, value := some (.flt false 10 1 (s "1.0")), nbDecimals := 1, dOpt := defaultDOpt } = .ok .p := by decide +kernel
+example : gramNumber { lang := .fr, value := some (.flt true 15 1 (s "-1.5")), nbDecimals := 1, dOpt := defaultDOpt } = .ok .s := by decide +kernel
+example : gramNumber { lang := .fr, value := some (.int 2), nbDecimals := 0, dOpt := defaultDOpt } = .ok .p := by decide +kernel
 
 end Pyrealb.C16
